@@ -221,16 +221,21 @@ struct Q2
     std::function<std::string(const F&)> fi;
     std::function<std::string(const M&)> fm;
     bool nul_free_only;
+    bool nul_arg;   // the argument (needle / character set / character) contains NUL
 };
 static std::vector<Q2> g_queries;
 
 #define GEN(...) [=](auto& s) -> std::string { typedef typename std::decay<decltype(s)>::type S; (void)sizeof(S); __VA_ARGS__ }
 
 static long long g_expected_len = 0, g_expected_oor = 0;
+static long long g_term_alias_ops = 0, g_term_alias_transitions = 0;   // sources that are a range of the string's own buffer INCLUDING its terminator
+static bool is_term_alias(const std::string& kind) { const std::string t = "[alias+term]"; return kind.size() > t.size() && kind.compare(kind.size() - t.size(), t.size(), t) == 0; }
 
 static void add_op(Ex& ex, const std::string& kind, const std::string& name, Op2 op)
 {
-    ex.add_op(kind, name, [op, kind](World& w, Errs& e) -> bool {
+    const bool term_alias = is_term_alias(kind);
+    if (term_alias) ++g_term_alias_ops;
+    ex.add_op(kind, name, [op, kind, term_alias](World& w, Errs& e) -> bool {
         M m2 = w.model;
         std::string rm = run(m2, op.fm);
         if (rm == NA) return false;
@@ -239,6 +244,7 @@ static void add_op(Ex& ex, const std::string& kind, const std::string& name, Op2
         else if (rm == "EXC:length_error" || (rm.compare(0, 4, "EXC:") != 0 && m2.size() > N)) expect = LEN;
         else if (rm.compare(0, 4, "EXC:") == 0) { e.add("harness", "model threw " + rm); return true; }
         if (!THROWING && expect != OK) return false;   // silent policy: capacity and positions are caller preconditions
+        if (term_alias) ++g_term_alias_transitions;
         std::string ri = run(w.f(), op.fi);
         // C02: nothing outside the object's own buffer may change, whatever happened
         if (!frame_ok(w, 0) && !frame_ok(w, 1)) { e.add("C02:neighbour-modified", "memory outside the string object (neighbouring strings / guard bytes) was modified"); return true; }
@@ -268,11 +274,13 @@ static void add_op(Ex& ex, const std::string& kind, const std::string& name, Op2
 
 static void add_q(const std::string& kind, const std::string& name, std::function<std::string(const F&)> fi, std::function<std::string(const M&)> fm, bool nul_free_only = false)
 {
-    g_queries.push_back(Q2{kind, name, fi, fm, nul_free_only});
+    g_queries.push_back(Q2{kind, name, fi, fm, nul_free_only, false});
 }
 #define QUERY(kind, name, nulfree, ...) { auto g_ = [=](const auto& s) -> std::string { typedef typename std::decay<decltype(s)>::type S; (void)sizeof(S); __VA_ARGS__ }; add_q(kind, name, g_, g_, nulfree); }
+// a query whose argument contains NUL (counted separately in the evidence)
+#define QUERYN(kind, name, ...) { QUERY(kind, name, false, __VA_ARGS__) g_queries.back().nul_arg = true; }
 
-static long long g_query_evals = 0;
+static long long g_query_evals = 0, g_nul_query_evals = 0;
 static std::map<std::string, std::set<std::string>>* g_outcomes = nullptr;
 
 static void check_state(const World& w, Errs& e)
@@ -289,6 +297,7 @@ static void check_state(const World& w, Errs& e)
         if (mexc && !THROWING) continue;
         std::string ri = run(w.f(), q.fi);
         ++g_query_evals;
+        if (q.nul_arg) ++g_nul_query_evals;
         if (ri != rm)
         {
             if (mexc) e.add("C02:query-" + q.kind + "-exception", q.name + ": expected " + rm.substr(4) + ", got " + ri + " on \"" + txt(w.model) + "\"");
@@ -309,6 +318,7 @@ static std::vector<std::size_t> CE;   // counts meaning "up to the end" (npos al
 static std::vector<Src> SRC;          // NUL-free source operands
 static std::vector<Src> SRCN;         // sources with embedded NUL (counted overloads only, not for the strlen layout)
 static std::vector<CT> CH;
+static std::vector<Src> QN;           // search arguments containing NUL (every layout: a search does not modify the string)
 
 static std::vector<std::size_t> sub_pos(std::size_t len)
 {
@@ -351,6 +361,13 @@ static void setup_alphabets()
     t.push_back(over);
     if (CFG_LARGE) { M almost(full); almost.pop_back(); t.push_back(almost); }
     for (auto& x : t) SRC.emplace_back(x);
+    {
+        // every string over {a, CH2, NUL} of length <= 2 with at least one NUL (capacities 200/256: one of each shape)
+        const CT Z = CT(0);
+        std::vector<M> qn = {M(1, Z), M{CT('a'), Z}, M{B2, Z}, M{Z, CT('a')}, M{Z, B2}, M{Z, Z}};
+        if (CFG_LARGE) qn = {M(1, Z), M{CT('a'), Z}, M{Z, B2}};
+        for (auto& x : qn) QN.emplace_back(x);
+    }
     if (!STRLEN)
     {
         SRCN.emplace_back(M(1, CT(0)));
@@ -450,6 +467,55 @@ static void build_alias_ops(Ex& ex)
         }
     }
 }
+
+// =========================================================================================================
+// Aliasing sources that INCLUDE THE TERMINATOR. data()[size()] is a readable element of the string's own array (it is NUL), so
+// [data()+p, data()+p+c) with p + c == size() + 1 is a legal explicitly counted source that ends ON (c == 1: consists of) the
+// string's own terminator; c == 0 is the empty range one past it. build_alias_ops above stops at p + c <= size(); this part adds
+// the remaining ranges, parametrised by their length c (source = the last c-1 characters followed by the terminator), for every
+// counted overload (pointer+count, iterator pair given as pointers) of assign / append / insert / replace.
+// Oracle: the same call on std::basic_string with a DISJOINT copy of the source range taken before the call (libstdc++ itself
+// copies an aliased source with traits_type::copy in its no-reallocation paths, so the aliased call on the model is not used).
+// A source with the terminator in it puts a NUL into the content, so for the strlen layout only c == 0 is in the alphabet.
+template <class S> const CT* tail_src(const S& s, std::size_t c, M& keep, std::true_type) { keep.assign(s.data() + (s.size() + 1 - c), c); return keep.data(); }
+template <class S> const CT* tail_src(const S& s, std::size_t c, M&, std::false_type) { return s.data() + (s.size() + 1 - c); }
+#define TAIL(c) if (c > s.size() + 1 || (STRLEN && c > 0)) return NA; M keep_; const CT* t_ = tail_src(s, c, keep_, is_model<S>());
+
+static void build_alias_term_ops(Ex& ex)
+{
+    const std::vector<std::size_t> tc = CFG_LARGE ? std::vector<std::size_t>{0, 1, 2, N / 2, N, N + 1} : sub_pos(N);   // 0..N+1
+    const std::vector<std::size_t> ip = CFG_LARGE ? std::vector<std::size_t>{0, 1, N / 2, N - 1, N} : sub_pos(N);
+    for (std::size_t c : tc)
+    {
+        // the source range written out: [data+size-(c-1), data+size+1); c == 1 is the terminator alone, c == 0 the empty range behind it
+        const std::string b = c == 0 ? std::string("data+size+1") : c == 1 ? std::string("data+size") : "data+size-" + pn(c - 1), e = "data+size+1";
+        add_op(ex, "assign(ptr,n)[alias+term]", "assign(" + b + "," + pn(c) + ")", both(GEN(TAIL(c) return self(s, s.assign(t_, c));)));
+        add_op(ex, "assign(first,last)[alias+term]", "assign(" + b + "," + e + ")", both(GEN(TAIL(c) return self(s, s.assign(t_, t_ + c));)));
+        add_op(ex, "append(ptr,n)[alias+term]", "append(" + b + "," + pn(c) + ")", both(GEN(TAIL(c) return self(s, s.append(t_, c));)));
+        add_op(ex, "append(first,last)[alias+term]", "append(" + b + "," + e + ")", both(GEN(TAIL(c) return self(s, s.append(t_, t_ + c));)));
+        for (std::size_t i : ip)
+        {
+            add_op(ex, "insert(idx,ptr,n)[alias+term]", "insert(" + pn(i) + "," + b + "," + pn(c) + ")", both(GEN(TAIL(c) return self(s, s.insert(i, t_, c));)));
+            add_op(ex, "insert(it,first,last)[alias+term]", "insert(begin+" + pn(i) + "," + b + "," + e + ")",
+                   both(GEN(if (i > s.size()) return NA; TAIL(c) return iter(s, s.insert(s.begin() + std::ptrdiff_t(i), t_, t_ + c));)));
+            for (std::size_t n : CE)
+            {
+                if (CFG_LARGE && !(n <= 1 || n == npos)) continue;
+                add_op(ex, "replace(pos,n,ptr,n2)[alias+term]", "replace(" + pn(i) + "," + pn(n) + "," + b + "," + pn(c) + ")", both(GEN(TAIL(c) return self(s, s.replace(i, n, t_, c));)));
+            }
+            for (std::size_t j : ip)
+            {
+                if (j < i) continue;
+                const std::string rg = "begin+" + pn(i) + ",begin+" + pn(j);
+                add_op(ex, "replace(it,it,ptr,n)[alias+term]", "replace(" + rg + "," + b + "," + pn(c) + ")",
+                       both(GEN(if (j > s.size()) return NA; TAIL(c) return self(s, s.replace(s.begin() + std::ptrdiff_t(i), s.begin() + std::ptrdiff_t(j), t_, c));)));
+                add_op(ex, "replace(it,it,first,last)[alias+term]", "replace(" + rg + "," + b + "," + e + ")",
+                       both(GEN(if (j > s.size()) return NA; TAIL(c) return self(s, s.replace(s.begin() + std::ptrdiff_t(i), s.begin() + std::ptrdiff_t(j), t_, t_ + c));)));
+            }
+        }
+    }
+}
+#undef TAIL
 
 // =========================================================================================================
 static void build_ops(Ex& ex)
@@ -671,6 +737,7 @@ static void build_ops(Ex& ex)
     add_op(ex, "copy-self", "s=S(s)", both(GEN(S c(s); s = c; return "ok";)));
     add_op(ex, "move-self", "s=S(move(s))", both(GEN(S c(std::move(s)); s = std::move(c); return "ok";)));
     build_alias_ops(ex);
+    build_alias_term_ops(ex);
 }
 
 // streams exist for char only (they go through std::string)
@@ -805,23 +872,32 @@ static void build_queries()
         REL(==, "==") REL(!=, "!=") REL(<, "<") REL(<=, "<=") REL(>, ">") REL(>=, ">=")
 #undef REL
     }
-    // searches for NUL-containing needles through the counted overload
-    for (auto& src : SRCN)
+    // ---- searches whose argument CONTAINS NUL, for every family and every overload that can carry one: a std::basic_string and a
+    // fixed-string argument with embedded NUL (defaulted position and every position of P), the counted pointer overload with every
+    // count that reaches a NUL, and the character overload with ch == NUL (below). A search does not modify the string, so these
+    // are asked in every layout; only the fixed-string ARGUMENT is left out for the strlen layout (it cannot hold an embedded NUL).
+    for (auto& src : QN)
     {
         const Src x = src;
-        for (std::size_t p : P)
-        {
-            QUERY("find", "find(ptr " + x.name + "," + pn(p) + "," + pn(x.len()) + ")", false, return num(s.find(x.r(), p, x.len()));)
-            QUERY("rfind", "rfind(ptr " + x.name + "," + pn(p) + "," + pn(x.len()) + ")", false, return num(s.rfind(x.r(), p, x.len()));)
-            QUERY("find_first_of", "find_first_of(ptr " + x.name + "," + pn(p) + "," + pn(x.len()) + ")", false, return num(s.find_first_of(x.r(), p, x.len()));)
-            QUERY("find_last_not_of", "find_last_not_of(ptr " + x.name + "," + pn(p) + "," + pn(x.len()) + ")", false, return num(s.find_last_not_of(x.r(), p, x.len()));)
+#define SEARCHN(fn) \
+        QUERYN(#fn, #fn "(string " + x.name + ")", return num(s.fn(x.text));) \
+        if (!STRLEN) QUERYN(#fn, #fn "(S " + x.name + ")", Tmp<S> o_(x.text.data(), x.text.size()); S& o = *o_; return num(s.fn(o));) \
+        for (std::size_t p : P) { \
+            QUERYN(#fn, #fn "(string " + x.name + "," + pn(p) + ")", return num(s.fn(x.text, p));) \
+            if (!STRLEN) QUERYN(#fn, #fn "(S " + x.name + "," + pn(p) + ")", Tmp<S> o_(x.text.data(), x.text.size()); S& o = *o_; return num(s.fn(o, p));) \
+            for (std::size_t c = 1; c <= x.len(); ++c) { if (x.text.find(CT(0)) >= c) continue; \
+                QUERYN(#fn, #fn "(ptr " + x.name + "," + pn(p) + "," + pn(c) + ")", return num(s.fn(x.r(), p, c));) } \
         }
+        SEARCHN(find) SEARCHN(rfind) SEARCHN(find_first_of) SEARCHN(find_first_not_of) SEARCHN(find_last_of) SEARCHN(find_last_not_of)
+#undef SEARCHN
     }
-    for (CT c : CH)
+    std::vector<CT> chq(CH);
+    chq.push_back(CT(0));
+    for (CT c : chq)
     {
 #define SEARCHC(fn) \
-        QUERY(#fn, #fn "(" + cn(c) + ")", false, return num(s.fn(c));) \
-        for (std::size_t p : P) QUERY(#fn, #fn "(" + cn(c) + "," + pn(p) + ")", false, return num(s.fn(c, p));)
+        QUERY(#fn, #fn "(" + cn(c) + ")", false, return num(s.fn(c));) g_queries.back().nul_arg = (c == CT(0)); \
+        for (std::size_t p : P) { QUERY(#fn, #fn "(" + cn(c) + "," + pn(p) + ")", false, return num(s.fn(c, p));) g_queries.back().nul_arg = (c == CT(0)); }
         SEARCHC(find) SEARCHC(rfind) SEARCHC(find_first_of) SEARCHC(find_first_not_of) SEARCHC(find_last_of) SEARCHC(find_last_not_of)
 #undef SEARCHC
     }
@@ -882,6 +958,14 @@ int main(int argc, char** argv)
     vf::stat("operation_instances", (long long)ex.ops.size());
     vf::stat("query_instances", (long long)g_queries.size());
     vf::stat("query_evaluations", g_query_evals);
+    {
+        long long nq = 0;
+        for (auto& q : g_queries) nq += q.nul_arg ? 1 : 0;
+        vf::stat("nul_argument_search_query_instances", nq);
+        vf::stat("nul_argument_search_query_evaluations", g_nul_query_evals);
+        vf::stat("alias_with_terminator_operation_instances", g_term_alias_ops);
+        vf::stat("alias_with_terminator_transitions", g_term_alias_transitions);
+    }
     vf::stat("expected_length_error_transitions", g_expected_len);
     vf::stat("expected_out_of_range_transitions", g_expected_oor);
     vf::done();
